@@ -85,6 +85,12 @@ static const char *const T_C03[] = {
 	"W0 S1>0 | s1 | a0",
 	"W0 | a0 | w0",
 	"S0 S1>0 | a1 | a0 | s1",
+	// two consecutive concurrent levels above the serial bottom: a sync waiter redirected through both must still take the bottom
+	"S0 C1>0 C2>1 | b2 s2 | a0",
+	"S0 C1>0 C2>1 | b2 | s2 | a0",
+	"S0 C1>0 C2>1 | a2 s2 | a1",
+	"S0 C1>0 C2>1 | b2 s2 | s1",
+	"S0 C1>0 C2>1 S3>2 | b2 | s3 | a0",
 	0
 };
 QP_HARNESS(h_q03, "q03", "C03", T_C03, 0);
